@@ -9,7 +9,7 @@
    emitted Transfer events) + aux (heights, committee, reward bookkeeping, caches, policy values).
    Accounts and public keys are small numbers assigned by the harness (key ids are ordered like PublicKey.Cmp). *)
 From NG Require Import Common.Tactics.
-From NG Require Import Auth.Permission Auth.PermStore.
+From NG Require Import Auth.Permission Auth.PermStore Tokens.Names.
 From Coq Require String.
 Open Scope Z_scope.
 
@@ -607,6 +607,9 @@ Definition mg_put (st : state) (h : N) (c : mcontract) (ids : amap (option N)) (
 Definition whitelist_clean (st : state) (a : N) : state :=
   withA st (set_policy (A st) (aset (wl_key a) 0 (p_store (A st))) (aset (wl_key a) 0 (p_cache (A st)))).
 
+(* the manifest the compiler writes by default: may call every method of every contract; no groups, no safe methods *)
+Definition shape_wild : mshape := mkShape [mk_perm DWild MWild] [] [].
+
 (* the Management contract as a callee (abstract hash number 64, no groups) *)
 Definition mgmt_callee : callee := mk_callee 64 [].
 
@@ -624,7 +627,7 @@ Definition mg_deploy (st : state) (a : N) (m : mshape) : result :=
 Definition mg_update (st : state) (a : N) (m : mshape) : result :=
   let c := contract_of st a in
   if negb (mc_present c) then None else
-  if negb (can_call (mc_perms c) mgmt_callee "update"%string) then None else
+  if negb (can_call (mc_perms c) mgmt_callee m_update) then None else
   if mc_counter c =? 65535 then None else
   let st1 := whitelist_clean st a in
   Some (mg_put st1 (caddr a) (mkMC true (mc_id c) (mc_counter c + 1) 2 (sh_perms m) (sh_groups m) (sh_safe m))
@@ -634,7 +637,7 @@ Definition mg_update (st : state) (a : N) (m : mshape) : result :=
 Definition mg_destroy (st : state) (a : N) : result :=
   let c := contract_of st a in
   if negb (mc_present c) then None else
-  if negb (can_call (mc_perms c) mgmt_callee "destroy"%string) then None else
+  if negb (can_call (mc_perms c) mgmt_callee m_destroy) then None else
   match block_account st (caddr a) with
   | None => None
   | Some (st1, _) =>
